@@ -53,6 +53,14 @@ theorem C39_outpoint (mm : Murmur) (f : Filter) (op : OutPoint) (hlen : f.bits.l
   have hgl : g.bits.length < 2 ^ 29 := by rw [(add_le mm hg).length]; exact hlen
   exact matches_mono mm (hev.le hgl) (add_matches mm hg)
 
+/-- `Reload`: whatever filter the object held before, after `Reload(new)` every operation is an
+    operation on `new` — adding to the reloaded filter never panics and the element matches, for a
+    new filter of any (different) size. -/
+theorem C39_reload (mm : Murmur) (cur new : Filter) (d : Bytes) (hlen : new.bits.length < 2 ^ 29) :
+    «matches» mm (reload cur new) d = «matches» mm new d ∧
+    ∃ g, add mm (reload cur new) d = some g ∧ «matches» mm g d = some true :=
+  ⟨rfl, C39_add_matches mm new d hlen⟩
+
 /-- The state the unguarded code could be put into by a peer: zero-length filter, one hash
     function.  Before the `fix:` commit both `matches` and `add` divided by zero on it
     (replayed on the real code: `corpus/C39/empty_filter.ops`). -/
